@@ -215,7 +215,10 @@ def _worker_block(args):
         for k in ks:
             rng = derive_rng(seed, engine_name, k)
             try:
-                trace = engine.generate(rng, tier, focus)
+                if getattr(engine, "USES_INDEX", False):
+                    trace = engine.generate(rng, tier, focus, k)
+                else:
+                    trace = engine.generate(rng, tier, focus)
             except Exception:
                 out.append({"k": k, "harness_error": "generate: " + traceback.format_exc()[-1500:],
                             "violations": [], "counters": {}, "faults": {}, "probes": {}, "sig": "", "nontrivial": False,
